@@ -1,15 +1,9 @@
-use quote::ToTokens;
 use syn::{spanned::Spanned, Meta};
 
 #[inline]
 pub(crate) fn union_without_unsafe(meta: &Meta) -> syn::Error {
-    let mut s = meta.into_token_stream().to_string();
-
-    match s.len() {
-        9 => s.push_str("(unsafe)"),
-        11 => s.insert_str(10, "unsafe"),
-        _ => unreachable!(),
-    }
+    // `unsafe` is the only parameter that the `PartialEq` attribute of a union accepts
+    let s = "PartialEq(unsafe)";
 
     syn::Error::new(
         meta.span(),
